@@ -92,15 +92,16 @@ fn m_verify(mode: u8, key: &[u8], m: &[u8], sig: &[u8], ctx: Option<&[u8]>, chos
     }
     let key = arr32(key);
     let sig = refmodel::arr64(sig);
-    let strict = matches!(mode, 2 | 4);
+    let strict = matches!(mode, 2 | 4 | 13);
     let vm = VerifyMode { strict, legacy: LEGACY };
-    let prehashed = matches!(mode, 3 | 4 | 6 | 8 | 10 | 11);
+    let prehashed = matches!(mode, 3 | 4 | 6 | 8 | 10 | 11 | 12 | 13 | 14 | 15);
     let verdict = if prehashed {
-        let ph = eddsa::sha512(&[m]);
+        // modes 12..15: the alternative message digest in the prehash position
+        let ph = if mode >= 12 { eddsa::sha512(&[m, &[crate::env::ALT_SUFFIX]]) } else { eddsa::sha512(&[m]) };
         let c = ctx.unwrap_or(b"");
         if c.len() > 255 {
             // with_context refuses; the plain prehashed verifiers are out of their documented domain
-            return (key_ok, sig_ok, if mode == 8 { Some(false) } else { None });
+            return (key_ok, sig_ok, if mode == 8 || mode == 15 { Some(false) } else { None });
         }
         if mode == 11 {
             // the context digest is the simulator's stub: the challenge is what it was told to output
@@ -302,7 +303,7 @@ impl ModelW {
                         if cc.len() > 255 {
                             None
                         } else {
-                            let ph = eddsa::sha512(&[&m.0]);
+                            let ph = if mode >= 12 { eddsa::sha512(&[&m.0, &[crate::env::ALT_SUFFIX]]) } else { eddsa::sha512(&[&m.0]) };
                             Some(eddsa::sign_expanded(&mut RealSha512, &sg.a, &sg.prefix, &sg.pk, &ph, Some(cc)))
                         }
                     }
@@ -464,6 +465,10 @@ fn lens(arg: &[u16], n: usize) -> (usize, usize, usize) {
 fn eff_sign_mode(mode: u8, has_seed: bool) -> u8 {
     if mode == 6 {
         return 6; // hazmat raw_sign with the stub digest, any signer
+    }
+    if mode >= 12 {
+        // Ed25519ph over the alternative message digest: sign_prehashed / context signer / hazmat
+        return if has_seed { 12 + (mode - 12) % 3 } else { 14 };
     }
     if has_seed {
         mode % 6
@@ -816,6 +821,16 @@ impl RealW {
                         let esk = ExpandedSecretKey::from(&sk.to_bytes());
                         Some(hazmat::raw_sign::<Sha512>(&esk, &m.0, &sk.verifying_key()))
                     }
+                    (RSigner::Key(sk), 12) => sk.sign_prehashed(crate::env::alt_chunked(&m.0, ch), c).ok(),
+                    (RSigner::Key(sk), 13) => match sk.with_context(c.unwrap_or(b"")) {
+                        Ok(cx) => cx.try_sign_digest(crate::env::alt_chunked(&m.0, ch)).ok(),
+                        Err(_) => None,
+                    },
+                    (RSigner::Key(sk), 14) => {
+                        let esk = ExpandedSecretKey::from(&sk.to_bytes());
+                        hazmat::raw_sign_prehashed::<Sha512, crate::env::AltDigest>(&esk, crate::env::alt_chunked(&m.0, ch), &sk.verifying_key(), c).ok()
+                    }
+                    (RSigner::Esk(esk, vk), 14) => hazmat::raw_sign_prehashed::<Sha512, crate::env::AltDigest>(esk, crate::env::alt_chunked(&m.0, ch), vk, c).ok(),
                     (RSigner::Key(sk), _) => {
                         let esk = ExpandedSecretKey::from(&sk.to_bytes());
                         hazmat::raw_sign_prehashed::<Sha512, Sha512>(&esk, sha512_chunked(&m.0, ch), &sk.verifying_key(), c).ok()
@@ -828,6 +843,11 @@ impl RealW {
                     o.b("sig", &sig.to_bytes());
                     let prehashed = !matches!(mode, 0 | 1 | 4);
                     let sv = match sg {
+                        RSigner::Key(sk) if mode >= 12 => {
+                            sk.verify_prehashed(crate::env::alt_chunked(&m.0, ch), c, &sig).is_ok()
+                                && sk.verifying_key().verify_prehashed_strict(crate::env::alt_chunked(&m.0, ch), c, &sig).is_ok()
+                        }
+                        RSigner::Esk(_, vk) if mode >= 12 => vk.verify_prehashed(crate::env::alt_chunked(&m.0, ch), c, &sig).is_ok(),
                         RSigner::Key(sk) => {
                             if prehashed {
                                 sk.verify_prehashed(sha512_chunked(&m.0, ch), c, &sig).is_ok()
@@ -881,6 +901,7 @@ impl RealW {
                     set_dispatch(*d);
                     // in release builds the plain prehashed verifiers are also called with over-long contexts (no panic allowed)
                     let too_long = c.map(|c| c.len() > 255).unwrap_or(false) && (cfg!(debug_assertions) || *mode == 8);
+                    use crate::env::{alt_chunked, AltDigest};
                     let acc: bool = match mode {
                         0 => vk.verify(&m.0, &sg).is_ok(),
                         1 => Verifier::verify(&vk, &m.0, &sg).is_ok(),
@@ -909,6 +930,13 @@ impl RealW {
                         }
                         8 => match vk.with_context(c.unwrap_or(b"")) {
                             Ok(cx) => cx.verify_digest(sha512_chunked(&m.0, ch), &sg).is_ok(),
+                            Err(_) => false,
+                        },
+                        12 if !too_long => vk.verify_prehashed(alt_chunked(&m.0, ch), c, &sg).is_ok(),
+                        13 if !too_long => vk.verify_prehashed_strict(alt_chunked(&m.0, ch), c, &sg).is_ok(),
+                        14 if !too_long => hazmat::raw_verify_prehashed::<Sha512, AltDigest>(&vk, alt_chunked(&m.0, ch), c, &sg).is_ok(),
+                        15 => match vk.with_context(c.unwrap_or(b"")) {
+                            Ok(cx) => cx.verify_digest(alt_chunked(&m.0, ch), &sg).is_ok(),
                             Err(_) => false,
                         },
                         10 if c.is_none() => DigestVerifier::verify_digest(&vk, sha512_chunked(&m.0, ch), &sg).is_ok(),
